@@ -171,9 +171,9 @@ def nextInput : St → PM (Option Nat × St) := nextLit true
 def latchInit (p : Parser) (stateCode : Nat) : PM (Option Bool) := do
   let initCode ← lit p.maxLit false
   let init ←
-    if initCode < 2 then pure (some (initCode != 0))
-    else if initCode == stateCode then pure none
-    else errorAtMark
+    (if initCode < 2 then pure (some (initCode != 0))
+     else if initCode == stateCode then pure none
+     else errorAtMark)
   requiredNewline
   pure init
 
